@@ -167,6 +167,14 @@ func (e *exec) judgeImage(o Op, im *image, lower, upper *tsdbmodel.Model) {
 		lower = lower.Clone()
 		lower.TagOOOHeadCells(tsdbmodel.TagWBLSkipped)
 	}
+	if snapshotBehindCheckpoint(dir) {
+		// listed finding (ooo-mmap-chunks-dropped-on-duplicate-series-record): recovery loads the series from a chunk
+		// snapshot that is older than the last WAL checkpoint, and the series records replayed from that checkpoint
+		// reset the m-mapped (out-of-order) chunks of the series just loaded
+		lower = lower.Clone()
+		lower.TagOOOHeadCells(tsdbmodel.TagOOODupRef)
+		e.res.Count("images_with_snapshot_behind_checkpoint", 1)
+	}
 	saved := e.dir
 	if debugOn {
 		os.RemoveAll("/dev/shm/verif-pre")
@@ -308,6 +316,24 @@ func (e *exec) onlyMultiRefSeriesDiffer(a, b qresult) bool {
 		}
 	}
 	return true
+}
+
+// snapshotBehindCheckpoint reports whether dir holds a chunk snapshot whose WAL segment index is not beyond the last
+// WAL checkpoint (a start from it replays the checkpoint's series records on top of the snapshot's series).
+func snapshotBehindCheckpoint(dir string) bool {
+	snaps, _ := filepath.Glob(filepath.Join(dir, "chunk_snapshot.*"))
+	cps, _ := filepath.Glob(filepath.Join(dir, "wal", "checkpoint.*"))
+	if len(snaps) == 0 || len(cps) == 0 {
+		return false
+	}
+	maxCP := -1
+	for _, c := range cps {
+		var n int
+		if _, err := fmt.Sscanf(filepath.Base(c), "checkpoint.%d", &n); err == nil && n > maxCP {
+			maxCP = n
+		}
+	}
+	return snapIndex(snaps) >= 0 && snapIndex(snaps) <= maxCP
 }
 
 func siteClass(s string) string {
